@@ -1398,7 +1398,12 @@ func (p *Parser) parseFormatStringOperator() (token.Token, string, string, error
 
 	formatted, err := p.fonts.FormatText(textToken.Literal, maxLineLength, cursorOverlapWidth, fontID, numLines)
 	if err != nil && p.enableEnvironmentErrors {
-		return token.Token{}, "", "", NewParseError(fontIdToken, err.Error())
+		// Without an explicit font id, report the error at the text being formatted.
+		errorToken := fontIdToken
+		if errorToken.Type == "" {
+			errorToken = textToken
+		}
+		return token.Token{}, "", "", NewParseError(errorToken, err.Error())
 	}
 	return textToken, formatted, stringType, nil
 }
